@@ -612,3 +612,55 @@ Proof.
       * subst s1. ds s. prj. apply insert_by_Forall; auto. apply HA. left; auto.
       * intros t' p' cid Hin. subst s1. ds s. prj. apply HA. right; auto.
 Qed.
+
+Lemma seq_fst : forall (a b : act) s, fst ((a ;; b) s) = fst (b (fst (a s))).
+Proof. intros. unfold seq. destruct (a s) as [s1 o1]. destruct (b s1). reflexivity. Qed.
+
+Lemma reset_hb_fst : forall s, fst (reset_heartbeat_timer s) = set_hb_running true s.
+Proof. intros s. unfold reset_heartbeat_timer. destruct (hb_running s) eqn:E; cbn [fst]; [|reflexivity]. ds s. cbn in E. subst. reflexivity. Qed.
+
+Lemma on_sync_ok_Inv : forall gid asg s, Jcore (Some (gid, true)) s -> stop_pend s = false ->
+  Inv (fst ((upd (set_cur_assign asg) ;; reset_heartbeat_timer ;; upd (set_rejoin_needed false) ;; on_join_complete asg ;; gen_end) s)).
+Proof.
+  intros gid asg s H SP. apply stop_pend_false in SP. destruct SP as [Hs Hr].
+  rewrite !seq_fst. unfold upd at 1 2. cbn [fst]. rewrite reset_hb_fst.
+  set (sA := set_rejoin_needed false (set_hb_running true (set_cur_assign asg s))).
+  assert (C0 : consumers s = []) by apply (adv_cons_nil _ _ H).
+  assert (G0 : gens s = [] /\ rejoin_d s = Some gid) by apply (j8 _ _ H Hs).
+  assert (X : exists cs', same_core (set_consumers cs' sA) (fst (on_join_complete asg sA)) /\
+                          Forall (cons_ok (generation s) (member s) asg) cs' /\ (is_group s = false -> cs' = [])).
+  { unfold on_join_complete. destruct (is_group sA) eqn:G.
+    - replace (stop_requested sA) with false by (subst sA; ds s; auto).
+      destruct (start_consumers_spec (group_by_topic asg) sA) as [A B].
+      exists (consumers (fst (start_consumers (group_by_topic asg) sA))). split; [exact A|]. split.
+      + apply B; [subst sA; ds s; prj; subst; constructor|].
+        intros t p cid Hin. subst sA. ds s. prj. unfold cons_ok. cbn. repeat split; auto. apply group_by_topic_In; auto.
+      + intros E. subst sA. ds s. cbn in G, E. congruence.
+    - exists []. cbn [fst]. split; [subst sA; ds s; prj; subst; frame|]. split; [constructor|auto]. }
+  destruct X as (cs' & SC & FA & NG).
+  set (sB := fst (on_join_complete asg sA)) in *. clearbody sB.
+  assert (JB : Jcore None (set_rejoin_d None (set_consumers cs' sA))).
+  { subst sA. destruct G0 as [G1 G2]. ds s. prj. subst. jgo. intros; discriminate. }
+  assert (SC' : same_core (set_rejoin_d None (set_consumers cs' sA)) (fst (gen_end sB))).
+  { unfold gen_end, upd. cbn [fst]. subst sA. ds s. destruct sB. unfold same_core in *. prj. intuition. }
+  constructor.
+  - eapply Jcore_frame; [exact SC'|exact JB].
+  - unfold same_core in SC'. destruct SC' as (_&_&_&_&E1&E2&_&_&_&E3&_). unfold Stab. rewrite E1, E2, E3. subst sA. ds s. prj. auto.
+  - unfold same_core in SC'. destruct SC' as (_&_&_&_&E1&E2&_&_&_&E3&_). unfold Prog, progress. rewrite E1, E3. intros. right. left. subst sA. ds s. prj. auto.
+Qed.
+
+Lemma on_sync_Inv : forall rid r s, Inv s -> Inv (fst (on_sync rid r s)).
+Proof.
+  intros rid r s H. unfold on_sync. apply with_gen_Inv; auto. intros g rest T.
+  pose proof (take_gen_J _ _ _ _ (i_core _ H) T) as (J1 & N1 & NP).
+  assert (Ag : adv g = true).
+  { apply take_first_cnt with (p := adv) in T. destruct T as (T & _). apply awaits_adv in T. exact T. }
+  rewrite Ag in J1. pose proof (set_gens_stab rest s (i_stab _ H)) as St.
+  assert (NP' : start_d (set_gens rest s) <> None \/ stopping (set_gens rest s) = true) by (ds s; exact NP).
+  destruct r as [asg| | |k]; try apply (rae_end_Inv _ _ _ J1 NP').
+  all: destruct (stop_pend (set_gens rest s)) eqn:SP;
+    [apply (gen_end_Inv _ _ J1 St); apply stop_pend_cases in SP; intuition|].
+  - apply (on_sync_ok_Inv _ _ _ J1 SP).
+  - apply (gen_fail_Inv _ _ _ J1 St NP').
+  - apply (gen_fail_Inv _ _ _ J1 St NP').
+Qed.
